@@ -215,7 +215,8 @@ fn archives(rep: &mut Report, arch_lines: &[Value], args: &Args, nworkers: usize
         Ok(a) => a,
         Err(e) => { rep.note(PID, "fidelity_error", json!(format!("cannot build the archive: {e}"))); return }
     };
-    let limit = Duration::from_secs(if args.thorough() { 10 } else { 5 });
+    let limit = Duration::from_secs(if args.thorough() { 10 } else { 4 });
+    let quick = !args.thorough();
     let mut jobs = Vec::new();
     let mut n = 0usize;
     let mut push = |jobs: &mut Vec<Job>, sig: String, key: String, op: &str, arg: &[u8], data: Arc<Vec<u8>>, beh: Value, exp: Option<&str>| {
@@ -251,6 +252,8 @@ fn archives(rep: &mut Report, arch_lines: &[Value], args: &Args, nworkers: usize
         let exp = l["exp"].as_str().unwrap();
         let cls = if exp == "hang" { "cycle".to_string() } else { cor["to"].as_str().unwrap().to_string() };
         for (rop, arg) in real_ops(&arch, &l["op"]) {
+            // quick: RrdpArchive only; thorough: also the generic Archive (same index code, no error mapping)
+            if quick && rop.starts_with("g_") { continue }
             let sig = format!("archive/{}:{}", cor["f"].as_str().unwrap(), cls);
             push(&mut jobs, sig, format!("{cor}|{rop}|{}", l["op"]["n"]), rop, &arg, data.clone(), cor.clone(), Some(exp));
         }
@@ -261,6 +264,7 @@ fn archives(rep: &mut Report, arch_lines: &[Value], args: &Args, nworkers: usize
         for op in [json!({"k": "find", "n": "A"}), json!({"k": "find", "n": "B"}), json!({"k": "find", "n": "X"}), json!({"k": "publish", "n": "X"}),
                    json!({"k": "verify", "n": ""}), json!({"k": "objects", "n": ""})] {
             for (rop, arg) in real_ops(&arch, &op) {
+                if quick && rop.starts_with("g_") { continue }
                 let sig = format!("archive/extra:{label}");
                 push(&mut jobs, sig, format!("extra|{label}|{rop}|{}", op["n"]), rop, &arg, data.clone(), json!(label), None);
             }
